@@ -302,6 +302,43 @@ def run(tier: str, seed: int) -> int:
                 continue
             break
 
+    # ---- the same story played again in the same process gives the same transcript: objects the story creates from
+    # bardic.stdlib (and their default arguments) must not carry anything over from an earlier play-through or engine ----
+    STD_SRC = "\n".join([
+        "from bardic.stdlib.relationship import Relationship", "from bardic.stdlib.inventory import Inventory",
+        "from bardic.stdlib.economy import Wallet, Shop", "", ":: Start", "~ alex = Relationship('Alex', 50, 50, 0)",
+        "~ sam = Relationship('Sam', 10, 10, 0)", "~ inv = Inventory()", "~ purse = Wallet(20)",
+        "~ shop = Shop([{'name': 'Rope', 'weight': 1, 'value': 5}])",
+        "Alex knows war: {alex.has_discussed('war')} topics {len(alex.topics_discussed)} sam {len(sam.topics_discussed)}",
+        "Bag {len(inv.items)} gold {purse.gold} stock {len(shop.items)}",
+        "+ [Ask] -> Ask", "+ [Buy] -> Buy", "", ":: Ask", "~ alex.discuss_topic('war')", "~ alex.add_trust(15)",
+        "Asked: {alex.has_discussed('war')} sam {sam.has_discussed('war')} trust {alex.trust}", "+ [Back] -> Hub", "",
+        ":: Buy", "~ ok = shop.buy('Rope', purse, inv)", "Bought {ok}: bag {len(inv.items)} gold {purse.gold} stock {len(shop.items)}",
+        "+ [Back] -> Hub", "", ":: Hub",
+        "Hub: war {alex.has_discussed('war')} sam {len(sam.topics_discussed)} bag {len(inv.items)} gold {purse.gold}",
+        "+ [Ask] -> Ask", "+ [Buy] -> Buy"])
+    try:
+        with C.quiet():
+            std_story = BardCompiler().compile_string(STD_SRC)
+        transcripts = []
+        for rep in range(3):
+            r = random.Random(12345)          # the same inputs every time
+            ops = [("choose", 0), ("choose", 0), ("choose", 1), ("choose", 0)] + [("choose", r.randint(0, 1)) for _ in range(4)]   # Ask first
+            recs, _ = R.run_history(copy.deepcopy(std_story) if rep == 2 else std_story, ops)
+            transcripts.append([(x["obs"][:2], x["view"]["raw_content"] if x["view"] else None,
+                                 [c[0] for c in x["view"]["choices"]] if x["view"] else None) for x in recs])
+        stats["stdlib_replays"] = len(transcripts)
+        chk.count(("stdlib-replay", STD_SRC), True)
+        for rep in (1, 2):
+            if transcripts[rep] != transcripts[0]:
+                k = next(i for i, (a, b) in enumerate(zip(transcripts[0], transcripts[rep])) if a != b)
+                chk.report("replay-in-same-process-differs",
+                           f"play-through {rep + 1} of the same story with the same inputs differs from the first at step {k}: "
+                           f"{transcripts[rep][k][1]!r} instead of {transcripts[0][k][1]!r}", {"story_source": STD_SRC, "ops": ops})
+                break
+    except Exception as e:  # noqa
+        chk.disagree("stdlib-replay", f"the stdlib story could not be played: {type(e).__name__}: {e}", {"story_source": STD_SRC})
+
     # ---- the aliasing model evaluated on real object graphs ----
     if cell_terms:
         hdr = HEADER
